@@ -412,6 +412,11 @@ def project(items, target, make, interp=None):
                 if a or b:
                     if sigs(a) == sigs(b) and same_keys(a, b):
                         out.extend(a)
+                    elif b and not a:
+                        # ``if absent: return`` in front of the write: the same element as ``if present: write``
+                        cond = it[1]
+                        neg = cond.args[0] if isinstance(cond, Sym) and cond.op == 'not' else Sym('not', cond)
+                        out.append(El('alt', a=b, b=[], val=neg, op=it[4]))
                     else:
                         out.append(El('alt', a=a, b=b, val=it[1], op=it[4]))
             elif tag == 'check':
@@ -672,7 +677,24 @@ def compose_layout(result, interp=None):
             if all(sigs(x) == sigs(alts[0]) for x in alts[1:]):
                 return alts[0]
             if len(alts) == 2:
-                return [El('alt', a=alts[0], b=alts[1], val=None)]
+                # phi(A + S, B + S) is phi(A, B) + S (and likewise for a common head): an early ``return body`` against
+                # ``return prefix + body`` is the optional prefix followed by the body
+                a, b = alts
+                tail = []
+                while a and b and a[-1].sig() == b[-1].sig():
+                    tail.insert(0, a[-1])
+                    a, b = a[:-1], b[:-1]
+                head = []
+                while a and b and a[0].sig() == b[0].sig():
+                    head.append(a[0])
+                    a, b = a[1:], b[1:]
+                if b and not a:
+                    a, b = b, a         # the empty alternative second, as for an ``if present: write`` statement
+                if len(a) == 1 and a[0].kind == 'alt' and not a[0].b and not b:
+                    mid = [a[0]]        # optional(optional(X)) is optional(X)
+                else:
+                    mid = [El('alt', a=a, b=b, val=None)] if (a or b) else []
+                return head + mid + tail
             return [El('alt', a=alts[0], b=[El('alt', a=alts[1], b=sum(alts[2:], []), val=None)], val=None)]
         if isinstance(v, ComposerV):
             return from_part(('composer', v, len(v.ops)))
